@@ -317,7 +317,8 @@ def shared_site_predicate(kinds):
 
 def explore_workload(env, rec, rng, spec, wi):
     ntasks = spec["ntasks"]
-    cache_size = rng.choice([1, 2, 128])
+    # (the targeted strategy works on a template cache that is always full)
+    cache_size = rng.choice([1, 1, 2]) if spec["strategy"] == "sites3" else rng.choice([1, 2, 128])
     mode = rng.choice(["django", "isolated"])
     kinds = None
     if spec.get("kinds"):
@@ -493,11 +494,11 @@ def plan(tier, seed):
         for i in range(4):
             shards.append({"name": f"pct_{i:02d}", "strategy": "pct", "ntasks": 3, "workloads": 4, "max_schedules": 150, "idx": i})
         shards.append({"name": "stress", "strategy": "stress", "workloads": 6, "reps": 60, "idx": 0})
-        for i in range(2):
-            shards.append({"name": f"s3_{i:02d}", "strategy": "sites3", "ntasks": 2, "workloads": 3, "max_schedules": 1200, "idx": i, "kinds": [("shared_churn", "shared_churn"), ("churn", "shared_churn"), ("shared_churn", "program")]})
+        for i in range(3):
+            shards.append({"name": f"s3_{i:02d}", "strategy": "sites3", "ntasks": 2, "workloads": 3, "max_schedules": 1200, "idx": i, "kinds": [("shared_churn", "shared_churn"), ("shared_churn", "shared_churn"), ("churn", "shared_churn"), ("shared_churn", "program")][i:] + [("shared_churn", "shared_churn")]})
     else:
         for i in range(6):
-            shards.append({"name": f"s3_{i:02d}", "strategy": "sites3", "ntasks": 2, "workloads": 4, "max_schedules": 15000, "idx": i, "kinds": [("shared_churn", "shared_churn"), ("shared_churn", "shared_churn"), ("churn", "shared_churn"), ("shared_churn", "program")]})
+            shards.append({"name": f"s3_{i:02d}", "strategy": "sites3", "ntasks": 2, "workloads": 4, "max_schedules": 6000, "idx": i, "kinds": [("shared_churn", "shared_churn"), ("shared_churn", "shared_churn"), ("churn", "shared_churn"), ("shared_churn", "program")]})
         for i in range(16):
             shards.append({"name": f"p1_{i:02d}", "strategy": "preempt1", "ntasks": 2, "workloads": 10, "max_schedules": 4000, "idx": i})
         for i in range(8):
